@@ -272,18 +272,51 @@ def s18_touch(ctx):
     return res
 
 
-def s18_resolve(ctx):
-    """per-cell topology mode: contour_grid(resolve_branches_nodes=True) extracts branches and nodes from the traces inside every sample circle, so the table cannot depend on
-    whether the Network itself has determined its topology"""
-    import_fractopo()
+def check_resolve_map(ctx, traces, area, t, res, extra=None):
+    """one map in per-cell topology mode: the table of a trace-only Network vs that of the Network with determined topology; raising is a failure (repaired defect F17)"""
     import geopandas as gpd
     import joblib
 
     from fractopo import Network
 
+    case = {"stream": "S18-resolve", "t": t, "traces": lines(traces), "areas": area_rows([area])}
+    case.update(extra or {})
+    tables = {}
+    try:
+        for topo in (False, True):
+            net = Network(trace_gdf=gpd.GeoDataFrame(geometry=to_float_lines(traces)), area_gdf=gpd.GeoDataFrame(geometry=[area]), name="r", determine_branches_nodes=topo,
+                          snap_threshold=t, truncate_traces=True, circular_target_area=False)
+            x0, y0, x1, y1 = [float(v) for v in net.trace_gdf.total_bounds]
+            w = max(x1 - x0, y1 - y0) / 3
+            with joblib.parallel_config(backend="threading"):
+                tables[topo] = canon_table(net.contour_grid(cell_width=w, resolve_branches_nodes=True))
+    except Exception as e:
+        res.disagreements.append(Disagreement("S18-resolve", case, "a table", f"{type(e).__name__}: {str(e)[:200]}", True,
+                                              "contour_grid(resolve_branches_nodes=True) raised on a valid map (a cell whose circle holds no trace is the empty sample)"))
+        return
+    # cells without any trace inside their circle report the empty sample
+    for _, vals in tables[False]:
+        d = dict(vals)
+        if d.get("Fracture Intensity P21") == 0.0 and d.get("Number of Traces") not in (0.0, None):
+            res.disagreements.append(Disagreement("S18-resolve", case, "empty sample", d, True, "a cell without trace length reports traces"))
+            return
+    if not tables_close(tables[False], tables[True]):
+        diff = []
+        for (ba, va), (_, vb) in zip(tables[False], tables[True]):
+            for (ka, xa), (_, xb) in zip(va, vb):
+                if (xa is None) != (xb is None) or (xa is not None and abs(xa - xb) > 1e-9 * max(1.0, abs(xa))):
+                    diff.append((ba, ka, xa, xb))
+        res.disagreements.append(Disagreement("S18-resolve", case, "the same table from both Networks", diff[:4], True,
+                                              f"per-cell topology mode depends on whether the Network had determined its own topology: {diff[:2]}"))
+
+
+def s18_resolve(ctx):
+    """per-cell topology mode: contour_grid(resolve_branches_nodes=True) extracts branches and nodes from the traces inside every sample circle, so the table cannot depend on
+    whether the Network itself has determined its topology"""
+    import_fractopo()
     res = StreamResult("S18-resolve", rule="valid maps x cell width extent/3: contour_grid(resolve_branches_nodes=True) of a trace-only Network (determine_branches_nodes=False) vs the "
-                       "same call on the Network with determined topology: identical tables (in this mode every cell extracts its own branches and nodes from the traces in its "
-                       "circle), and topological columns are numbers wherever the circle holds traces; non-trivial = map with an X or Y node")
+                       "same call on the Network with determined topology: no exception (cells whose circle holds no trace are empty samples), identical tables (in this mode every "
+                       "cell extracts its own branches and nodes from the traces in its circle); non-trivial = map with an X or Y node")
     rng = rng_for(ctx.seed, "S18r")
     t = 0.01
     maps, _ = valid_maps(ctx, rng, budget(ctx.tier, 5, 30), F(t), area_kinds=("box",), nmax=5)
@@ -291,28 +324,7 @@ def s18_resolve(ctx):
         res.evaluations += 1
         if any(c in "XY" for _, c in ar.nodes):
             res.nontrivial += 1
-        case = {"stream": "S18-resolve", "t": t, "traces": lines(traces), "areas": area_rows([area])}
-        tables = {}
-        try:
-            for topo in (False, True):
-                net = Network(trace_gdf=gpd.GeoDataFrame(geometry=to_float_lines(traces)), area_gdf=gpd.GeoDataFrame(geometry=[area]), name="r", determine_branches_nodes=topo,
-                              snap_threshold=t, truncate_traces=True, circular_target_area=False)
-                x0, y0, x1, y1 = [float(v) for v in net.trace_gdf.total_bounds]
-                w = max(x1 - x0, y1 - y0) / 3
-                with joblib.parallel_config(backend="threading"):
-                    tables[topo] = canon_table(net.contour_grid(cell_width=w, resolve_branches_nodes=True))
-        except Exception as e:
-            res.skipped["resolve_mode_raised"] = res.skipped.get("resolve_mode_raised", 0) + 1
-            res.distribution[f"raised_{type(e).__name__}"] = res.distribution.get(f"raised_{type(e).__name__}", 0) + 1
-            continue
-        if not tables_close(tables[False], tables[True]):
-            diff = []
-            for (ba, va), (_, vb) in zip(tables[False], tables[True]):
-                for (ka, xa), (_, xb) in zip(va, vb):
-                    if (xa is None) != (xb is None) or (xa is not None and abs(xa - xb) > 1e-9 * max(1.0, abs(xa))):
-                        diff.append((ba, ka, xa, xb))
-            res.disagreements.append(Disagreement("S18-resolve", case, "the same table from both Networks", diff[:4], True,
-                                                  f"per-cell topology mode depends on whether the Network had determined its own topology: {diff[:2]}"))
+        check_resolve_map(ctx, traces, area, t, res)
     res.samples = [{"maps": len(maps)}]
     return res
 
@@ -366,8 +378,13 @@ def replay(ctx, stream, case):
         r = s18_generated(ctx)
         return r.disagreements[0] if r.disagreements else None
     if stream == "S18-resolve":
-        r = s18_resolve(ctx)
-        return r.disagreements[0] if r.disagreements else None
+        from shapely.geometry import Polygon as _Polygon
+
+        trs = parse_lines(case["traces"])
+        ring = parse_lines(case["areas"].split("#")[0].split("&")[0])[0]
+        res = StreamResult("replay")
+        check_resolve_map(ctx, trs, _Polygon([(float(x), float(y)) for x, y in ring]), case["t"], res)
+        return res.disagreements[0] if res.disagreements else None
     if stream == "S18-touch":
         res = StreamResult("replay")
         check_touch_map(ctx, [[tuple(p) for p in l] for l in case["traces"]], case["width"], res, stream)
